@@ -3,7 +3,7 @@
 
   Under the decidable conventions of `Spil/Spec/PathWF.lean` (`pathTplOk`: per '/'-free stretch at
   most one free placeholder, prefix-free vocabularies to its left, suffix-free ones to its right;
-  `pathConfOk`: + one-to-one, idempotent value mappings and vocabulary defaults), a template reads
+  `pathConfOk`: + idempotent value mappings — one-to-one, or several path words per sid value with an acceptable first word — and acceptable defaults), a template reads
   the path it rendered back to exactly the rendered values.  Consequences: resolva's duplicate
   check never fires on a self-rendered path, hence `Sid(path=…)` NEVER raises (C06, in full), and
   the round trip holds as soon as no EARLIER template matches the rendered path (C05).
